@@ -1562,3 +1562,55 @@ package adaptation
 //@   modifies b.r, lock(old(b.r).syncLock)
 //@   ensures [once]  b != nil ==> b.r == nil
 //@   ensures [rel]   b != nil && old(b.r) != nil ==> rheld(old(b.r).syncLock) == old(rheld(b.r.syncLock)) - 1
+
+// ---------------------------------------------------------------------------
+// Pre-installed plugins (plugin.go) — C18, the parts that are ordinary sequential code
+// ---------------------------------------------------------------------------
+// Drop-in configuration: <idx>-<name>.conf is tried first and wins; <name>.conf is read only
+// if the first does not exist; any other read error fails the lookup; nothing else is read.
+//@ pure dropin1(r *Adaptation, id string, base string) = pathjoin2(r.dropinPath, id + "-" + base + ".conf")
+//@ pure dropin2(r *Adaptation, base string) = pathjoin2(r.dropinPath, base + ".conf")
+//@ func Adaptation.getPluginConfig
+//@   props C18
+//@   requires r != nil
+//@   modifies calls("os.ReadFile"), calls("os.IsNotExist")
+//@   ensures [first]  ncalls("os.ReadFile") >= old(ncalls("os.ReadFile")) + 1 && callarg("os.ReadFile", old(ncalls("os.ReadFile")), 0) == dropin1(r, id, base)
+//@   ensures [hit1]   callret("os.ReadFile", old(ncalls("os.ReadFile")), 1) == nil ==> result.1 == nil && ncalls("os.ReadFile") == old(ncalls("os.ReadFile")) + 1
+//@                    && len(result.0) == len(callret("os.ReadFile", old(ncalls("os.ReadFile")), 0))
+//@   ensures [err1]   callret("os.ReadFile", old(ncalls("os.ReadFile")), 1) != nil && !callret("os.IsNotExist", old(ncalls("os.IsNotExist")), 0) ==> result.1 != nil && result.0 == "" && ncalls("os.ReadFile") == old(ncalls("os.ReadFile")) + 1
+//@   ensures [second] callret("os.ReadFile", old(ncalls("os.ReadFile")), 1) != nil && callret("os.IsNotExist", old(ncalls("os.IsNotExist")), 0) ==> ncalls("os.ReadFile") == old(ncalls("os.ReadFile")) + 2
+//@                    && callarg("os.ReadFile", old(ncalls("os.ReadFile")) + 1, 0) == dropin2(r, base)
+//@                    && (callret("os.ReadFile", old(ncalls("os.ReadFile")) + 1, 1) == nil ==> result.1 == nil && len(result.0) == len(callret("os.ReadFile", old(ncalls("os.ReadFile")) + 1, 0)))
+//@                    && (callret("os.ReadFile", old(ncalls("os.ReadFile")) + 1, 1) != nil && callret("os.IsNotExist", old(ncalls("os.IsNotExist")) + 1, 0) ==> result.1 == nil && result.0 == "")
+//@                    && (callret("os.ReadFile", old(ncalls("os.ReadFile")) + 1, 1) != nil && !callret("os.IsNotExist", old(ncalls("os.IsNotExist")) + 1, 0) ==> result.1 != nil)
+//@   ensures [asked]  forall i int :: 0 <= i && i < ncalls("os.IsNotExist") - old(ncalls("os.IsNotExist")) ==> callarg("os.IsNotExist", old(ncalls("os.IsNotExist")) + i, 0) == callret("os.ReadFile", old(ncalls("os.ReadFile")) + i, 1)
+//@   loop 1 invariant 0 <= idx + 1 && idx + 1 <= 2
+//@   loop 1 invariant ncalls("os.ReadFile") == old(ncalls("os.ReadFile")) + idx + 1 && ncalls("os.IsNotExist") == old(ncalls("os.IsNotExist")) + idx + 1
+//@   loop 1 invariant forall i int :: 0 <= i && i <= idx ==> callret("os.ReadFile", old(ncalls("os.ReadFile")) + i, 1) != nil && callret("os.IsNotExist", old(ncalls("os.IsNotExist")) + i, 0)
+//@                    && callarg("os.IsNotExist", old(ncalls("os.IsNotExist")) + i, 0) == callret("os.ReadFile", old(ncalls("os.ReadFile")) + i, 1)
+//@   loop 1 invariant idx >= 0 ==> callarg("os.ReadFile", old(ncalls("os.ReadFile")), 0) == dropin1(r, id, base)
+//@   loop 1 invariant idx >= 1 ==> callarg("os.ReadFile", old(ncalls("os.ReadFile")) + 1, 0) == dropin2(r, base)
+
+// A launched plugin gets exactly three environment variables (name, index, socket number 3)
+// and exactly one extra file, the peer end of its own socket pair (descriptor 3 in the child).
+//@ func isWasm
+//@   props C18
+//@   trusted
+//@   ensures true
+//@ func plugin.connect
+//@   props C18 C17
+//@   trusted
+//@   requires p != nil
+//@   modifies object(p)
+//@   ensures p.cmd == old(p.cmd) && p.idx == old(p.idx) && p.base == old(p.base) && p.cfg == old(p.cfg) && p.r == old(p.r)
+//@ func Adaptation.newLaunchedPlugin
+//@   props C18
+//@   requires r != nil
+//@   modifies @writes
+//@   ensures [err]   result.1 != nil ==> result.0 == nil
+//@   ensures [id]    result.1 == nil ==> result.0 != nil && fresh(result.0) && result.0.idx == idx && result.0.base == base && result.0.cfg == cfg && result.0.r == r
+//@   ensures [env]   result.1 == nil && result.0.cmd != nil ==> len(result.0.cmd.Env) == 3 && result.0.cmd.Env[0] == api.PluginNameEnvVar + "=" + base
+//@                   && result.0.cmd.Env[1] == api.PluginIdxEnvVar + "=" + idx && result.0.cmd.Env[2] == api.PluginSocketEnvVar + "=3"
+//@   ensures [files] result.1 == nil && result.0.cmd != nil ==> len(result.0.cmd.ExtraFiles) == 1
+//@   ensures [exec]  result.1 == nil && result.0.cmd != nil ==> ncalls("os/exec.Command") == old(ncalls("os/exec.Command")) + 1 && callarg("os/exec.Command", old(ncalls("os/exec.Command")), 0) == pathjoin2(dir, idx + "-" + base)
+//@                   && result.0.cmd == callret("os/exec.Command", old(ncalls("os/exec.Command")), 0)
